@@ -13,7 +13,7 @@ for id in "${ids[@]}"; do
   git -C $WT checkout -q -- . ; git -C $WT apply /verif/$p || { echo "$id: patch does not apply"; continue; }
   case $id in
     c13-g|m1_global_memo|m2_racy_origins) eng=M ;;
-    c13-j|c13-t) eng=Hs ;;
+    c13-j|c13-t|c13-ac|c13-ae) eng=Hs ;;
     *) eng=H,Hd ;;
   esac
   t0=$(date +%s)
